@@ -1,2 +1,468 @@
-import AnyioModel.Sync.Event
-import AnyioModel.Sync.Condition
+/-
+C11  Event and Condition: no early, spurious or lost wake-ups.
+
+Property theorems only.  Models: `AnyioModel.Sync.Event`, `AnyioModel.Sync.Condition` (which embeds
+the Lock model of C09); invariants and helper lemmas: `Sync/EventProofs`, `Sync/LockFrame`,
+`Sync/ConditionProofs`, `Sync/ConditionQueue`, `Sync/ConditionNotify`, `Sync/ConditionInv`,
+`Sync/ConditionFacts`.  Every statement quantifies over all reachable states, i.e. over all finite
+event lists: any number of waiters and notifiers, any `n`, any interleaving of the segments of
+`wait`/`notify`/`acquire`/`release` with cancellations (`fc`: the waiter's future is cancelled
+while pending; `mc`: a native cancellation lands after the wake-up was scheduled).
+-/
+import AnyioModel.Sync.EventProofs
+import AnyioModel.Sync.ConditionFacts
+
+namespace AnyioModel.Props.C11
+open AnyioModel AnyioModel.Sync
+
+-- the non-vacuity examples compare tuples of more than five observables
+set_option synthInstance.maxSize 2048
+
+/-! ## Event -/
+
+theorem C11_event_invariant {s : Event.State} (h : Event.Reach s) : Event.Inv s := by
+  refine Reachable.invariant Event.Inv ?_ ?_ s h
+  · rintro s rfl; exact Event.inv_init
+  · intro s e s' o hi hs; exact Event.inv_step hi hs
+
+/-- No early wake-up: the only transitions that return normally are `set()` itself and the
+wake-up segment of a `wait()`, and the latter only in a state whose flag is set (and stays set).
+In particular the call segment of `wait()` never returns by itself. -/
+theorem C11_event_wait_only_after_set {s s' : Event.State} (h : Event.Reach s) {e : Event.Ev}
+    (hs : Event.step s e = some (s', .ret)) :
+    e = .set ∨ (∃ t, e = .step t ∧ s.flag = true ∧ s'.flag = true) := by
+  have hi := C11_event_invariant h
+  cases e with
+  | wait t pre =>
+    simp only [Event.step] at hs
+    split at hs; · contradiction
+    split at hs <;> cases hs
+  | set => exact Or.inl rfl
+  | fc t =>
+    simp only [Event.step] at hs
+    split at hs <;> cases hs
+  | mc t =>
+    simp only [Event.step] at hs
+    split at hs <;> cases hs
+  | step t =>
+    right
+    refine ⟨t, rfl, ?_⟩
+    simp only [Event.step] at hs
+    split at hs
+    all_goals first
+      | contradiction
+      | (cases hs; done)
+      | (rename_i hpc
+         have hf : s.flag = true := hi.released_flag t (by simp [Event.releasedPc, hpc])
+         cases hs
+         exact ⟨hf, hf⟩)
+
+/-- `set()` releases every task waiting at that moment: each pending future is resolved (its
+task's wake-up is scheduled, and by `C11_event_released_progress` that wake-up ends the wait), no
+task is left blocked on a pending future, and the flag is set. -/
+theorem C11_event_set_releases_all {s s' : Event.State} (h : Event.Reach s) {o : Event.Out}
+    (hs : Event.step s .set = some (s', o)) :
+    o = .ret ∧ s'.flag = true ∧ s'.waiters = s.waiters ∧
+    (∀ t, s'.pc t ≠ .waiting) ∧ (∀ t, s.pc t = .waiting → s'.pc t = .woken) ∧
+    (∀ t, s.pc t ≠ .waiting → s'.pc t = s.pc t) := by
+  have hi := C11_event_invariant h
+  simp only [Event.step] at hs
+  split at hs
+  · rename_i hf
+    cases hs
+    refine ⟨rfl, hf, rfl, hi.flag_no_pending hf, ?_, fun _ _ => rfl⟩
+    intro t ht; exact absurd ht (hi.flag_no_pending hf t)
+  · cases hs
+    have hq : ∀ t, s.pc t = .waiting → t ∈ s.waiters := by
+      intro t ht; exact (hi.queued_iff t).mpr (Or.inl ht)
+    refine ⟨rfl, rfl, rfl, ?_, ?_, ?_⟩
+    · intro t
+      show (if t ∈ s.waiters ∧ s.pc t = .waiting then Event.Pc.woken else s.pc t) ≠ .waiting
+      split
+      · simp
+      · rename_i hn; intro hw; exact hn ⟨hq t hw, hw⟩
+    · intro t ht
+      show (if t ∈ s.waiters ∧ s.pc t = .waiting then Event.Pc.woken else s.pc t) = .woken
+      simp [hq t ht, ht]
+    · intro t ht
+      show (if t ∈ s.waiters ∧ s.pc t = .waiting then Event.Pc.woken else s.pc t) = s.pc t
+      simp [ht]
+
+/-- Once the flag is set, every task inside `wait()` -- whether it was waiting at the moment of
+`set()` or called `wait()` afterwards -- can be resumed, and its resumption ends the `wait()`:
+normally, unless a cancellation was delivered to it (`fc`/`mc`). -/
+theorem C11_event_released_progress {s : Event.State} (h : Event.Reach s) (hf : s.flag = true)
+    {t : Nat} (hin : s.pc t ≠ .idle) :
+    ∃ s' o, Event.step s (.step t) = some (s', o) ∧ s'.pc t = .idle ∧ s'.flag = true ∧
+      ((o = .ret ∧ (s.pc t = .woken ∨ s.pc t = .yielding)) ∨
+       (o = .cancelled ∧ (s.pc t = .waitFC ∨ s.pc t = .wokenMC ∨ s.pc t = .yieldingMC))) := by
+  have hi := C11_event_invariant h
+  have hnw := hi.flag_no_pending hf t
+  cases hpc : s.pc t with
+  | idle => exact absurd hpc hin
+  | waiting => exact absurd hpc hnw
+  | yielding =>
+    have e : Event.step s (.step t) = some ({ s with pc := upd s.pc t .idle }, .ret) := by
+      simp [Event.step, hpc]
+    exact ⟨_, _, e, by simp, hf, by simp⟩
+  | yieldingMC =>
+    have e : Event.step s (.step t) = some ({ s with pc := upd s.pc t .idle }, .cancelled) := by
+      simp [Event.step, hpc]
+    exact ⟨_, _, e, by simp, hf, by simp⟩
+  | woken =>
+    have e : Event.step s (.step t) =
+        some ({ s with waiters := s.waiters.erase t, pc := upd s.pc t .idle }, .ret) := by
+      simp [Event.step, hpc]
+    exact ⟨_, _, e, by simp, hf, by simp⟩
+  | waitFC =>
+    have e : Event.step s (.step t) =
+        some ({ s with waiters := s.waiters.erase t, pc := upd s.pc t .idle }, .cancelled) := by
+      simp [Event.step, hpc]
+    exact ⟨_, _, e, by simp, hf, by simp⟩
+  | wokenMC =>
+    have e : Event.step s (.step t) =
+        some ({ s with waiters := s.waiters.erase t, pc := upd s.pc t .idle }, .cancelled) := by
+      simp [Event.step, hpc]
+    exact ⟨_, _, e, by simp, hf, by simp⟩
+
+/-- A `wait()` called on a set event takes the non-blocking path (one bare yield). -/
+theorem C11_event_wait_after_set {s : Event.State} (hf : s.flag = true) {t : Nat} {pre : Bool}
+    (hidle : s.pc t = .idle) :
+    Event.step s (.wait t pre) = some ({ s with pc := upd s.pc t .yielding }, .susp) := by
+  simp [Event.step, hidle, hf]
+
+/-- A set event stays set, along every continuation. -/
+theorem C11_event_monotone {s s' : Event.State} {es : List Event.Ev}
+    (hr : runFrom Event.step s es = some s') (hf : s.flag = true) : s'.flag = true := by
+  induction es generalizing s with
+  | nil => simp [runFrom] at hr; subst hr; exact hf
+  | cons e es ih =>
+    simp only [runFrom] at hr
+    split at hr
+    · contradiction
+    · rename_i s1 o hs
+      refine ih hr ?_
+      cases e <;> simp only [Event.step] at hs <;> (repeat' split at hs) <;>
+        first | contradiction | (cases hs; first | exact hf | rfl)
+
+/-! ## Condition -/
+
+theorem C11_invariant {s : Condition.State} (h : Condition.Reach s) : Condition.Inv s :=
+  Condition.inv_reach h
+
+/-- `notify(n)` by the lock holder sets exactly the events of the `min n |waiters|` oldest
+waiters (the prefix `take n` of the FIFO), removes exactly those from the queue, and touches
+nobody else; the lock stays with the notifier. -/
+theorem C11_notify_at_most_n {s s' : Condition.State} (h : Condition.Reach s) {t n : Nat}
+    {o : Condition.Out} (hs : Condition.step s (.notify t n) = some (s', o))
+    (hown : s.ownerTask = some t) :
+    o = .ret ∧ s'.waiters = s.waiters.drop n ∧
+    (s.waiters.take n).length = min n s.waiters.length ∧
+    (∀ u ∈ s.waiters.take n, Condition.isSet (s'.cpc u) = true ∧ s'.wasSet u = true) ∧
+    (∀ u, u ∉ s.waiters.take n → s'.cpc u = s.cpc u ∧ s'.wasSet u = s.wasSet u) ∧
+    s'.issued = s.issued + min n s.waiters.length ∧
+    s'.lock = s.lock ∧ s'.ownerTask = s.ownerTask := by
+  have hi := C11_invariant h
+  simp only [Condition.step] at hs
+  split at hs; · contradiction
+  rename_i hcp; simp only [ne_eq, Decidable.not_not] at hcp
+  split at hs
+  · rename_i hno; exact absurd hown hno
+  · cases hs
+    have hx := Condition.invQx_of_invQ (t := t) hi.q (by simp [hcp, Condition.isQueued])
+      (by simp [hcp, Condition.isSet])
+    obtain ⟨_, sp⟩ := Condition.notifyLoop_spec t n s hx
+    exact ⟨rfl, sp.waiters, List.length_take, sp.selected, sp.others,
+      by rw [sp.issued, List.length_take], sp.lock, sp.owner⟩
+
+/-- `notify_all()` by the lock holder sets the event of every queued waiter and empties the queue. -/
+theorem C11_notify_all_releases_all {s s' : Condition.State} (h : Condition.Reach s) {t : Nat}
+    {o : Condition.Out} (hs : Condition.step s (.notifyAll t) = some (s', o))
+    (hown : s.ownerTask = some t) :
+    o = .ret ∧ s'.waiters = [] ∧
+    (∀ u ∈ s.waiters, Condition.isSet (s'.cpc u) = true ∧ s'.wasSet u = true) ∧
+    (∀ u, u ∉ s.waiters → s'.cpc u = s.cpc u ∧ s'.wasSet u = s.wasSet u) ∧
+    s'.issued = s.issued + s.waiters.length := by
+  have hi := C11_invariant h
+  simp only [Condition.step] at hs
+  split at hs; · contradiction
+  rename_i hcp; simp only [ne_eq, Decidable.not_not] at hcp
+  split at hs
+  · rename_i hno; exact absurd hown hno
+  · cases hs
+    have hx := Condition.invQx_of_invQ (t := t) hi.q (by simp [hcp, Condition.isQueued])
+      (by simp [hcp, Condition.isSet])
+    obtain ⟨_, sp⟩ := Condition.notifyLoop_spec t s.waiters.length s hx
+    have ht : s.waiters.take s.waiters.length = s.waiters := List.take_length
+    refine ⟨rfl, by rw [sp.waiters]; simp, ?_, ?_, by rw [sp.issued, ht]⟩
+    · intro u hu; exact sp.selected u (by rw [ht]; exact hu)
+    · intro u hu; exact sp.others u (by rw [ht]; exact hu)
+
+/-- The ghost "my event has been set" can only be switched on by a `notify(n)`/`notify_all()` of
+the current lock holder that selects the task among the oldest waiters, or by a notified waiter
+that is being cancelled and hands its notification to the task at the head of the queue. -/
+theorem C11_set_only_by_notification {s s' : Condition.State} (h : Condition.Reach s)
+    {e : Condition.Ev} {o : Condition.Out} (hs : Condition.step s e = some (s', o)) {u : Nat}
+    (h0 : s.wasSet u = false) (h1 : s'.wasSet u = true) :
+    (∃ t n, e = .notify t n ∧ s.ownerTask = some t ∧ u ∈ s.waiters.take n) ∨
+    (∃ t, e = .notifyAll t ∧ s.ownerTask = some t ∧ u ∈ s.waiters) ∨
+    (∃ t, e = .step t ∧ Condition.cancelledNotified (s.cpc t) ∧ s.waiters.head? = some u) :=
+  Condition.wasSet_rises (C11_invariant h) hs h0 h1
+
+/-- No early or spurious wake-up: the call segment of `wait()` never returns, and a later segment
+returns normally only to a task whose event has been set (see `C11_set_only_by_notification`; the
+bit is cleared on entry to `wait()`), which was not resumed by a cancellation, and which at that
+moment again holds the lock: it is the Lock's owner, the Condition's recorded owner, and the
+unique task with `holds`. -/
+theorem C11_wait_returns_notified_holding {s s' : Condition.State} (h : Condition.Reach s) :
+    (∀ t pre, Condition.step s (.wait t pre) ≠ some (s', .ret)) ∧
+    (∀ t, Condition.step s (.step t) = some (s', .ret) → Condition.inWait (s.cpc t) →
+      s.wasSet t = true ∧ (s.cpc t = .reacq false ∨ ∃ p, s.cpc t = .evSet p) ∧
+      s'.lock.holds t = true ∧ s'.lock.owner = some t ∧ s'.ownerTask = some t ∧
+      s'.cpc t = .none ∧ (∀ u, s'.lock.holds u = true → u = t)) := by
+  have hi := C11_invariant h
+  constructor
+  · intro t pre hs
+    simp only [Condition.step] at hs
+    split at hs; · contradiction
+    split at hs
+    · cases hs
+    · unfold Condition.waitBody at hs
+      split at hs
+      · cases hs
+      · simp only at hs
+        split at hs
+        · contradiction
+        · cases hs
+        · rename_i l lo hne hr
+          injection hs with hs; injection hs with _ hs2
+          subst hs2
+          exact hne rfl
+  · intro t hs hw
+    have hi' := Condition.inv_step hi hs
+    obtain ⟨h1, h2, h3, h4⟩ := Condition.wait_ret hi hs hw
+    have hh : s'.lock.holds t = true := (hi'.a.owner_holds t).mp h2
+    have ho := (hi'.a.lockInv.holds_owner t hh).1
+    refine ⟨h1, h4, hh, ho, h2, h3, ?_⟩
+    intro u hu
+    have := (hi'.a.lockInv.holds_owner u hu).1
+    rw [ho] at this; cases this; rfl
+
+/-- Accounting of notifications: every event set by a notifier is, at any moment, either
+consumed by the waiter it was issued to, consumed by a waiter it was passed on to, dropped by a
+cancelled waiter that found the queue empty, or still pending at a task whose wake-up has not
+run yet (`notified` lists exactly the tasks suspended on a set event). -/
+theorem C11_pass_on_accounting {s : Condition.State} (h : Condition.Reach s) :
+    s.issued = s.consumedDirect + s.consumedPassed + s.dropped + s.notified.length ∧
+    s.notified.Nodup ∧ (∀ u, u ∈ s.notified ↔ Condition.isSet (s.cpc u) = true) :=
+  let hi := C11_invariant h
+  ⟨hi.c, hi.q.n_nodup, hi.q.notified_iff⟩
+
+/-- A notification handed to a waiter that is being cancelled is not lost: when a task whose
+event was set is resumed by a cancellation (future cancelled before the `notify`: `evFCSet`;
+native cancellation after it: `evSetMC`), its `wait()` does not return normally, and in the same
+segment the event of the oldest still-queued waiter is set (that waiter leaves the queue and is
+now pending); only if nobody is queued is the notification dropped. -/
+theorem C11_pass_on {s s' : Condition.State} (h : Condition.Reach s) {t : Nat} {o : Condition.Out}
+    (hs : Condition.step s (.step t) = some (s', o))
+    (hc : Condition.cancelledNotified (s.cpc t)) :
+    o ≠ .ret ∧ (s'.cpc t = .none ∨ s'.cpc t = .reacq true) ∧ t ∉ s'.notified ∧
+    ((s.waiters = [] ∧ s'.waiters = [] ∧ s'.dropped = s.dropped + 1) ∨
+     (∃ u rest, s.waiters = u :: rest ∧ s'.waiters = rest ∧ Condition.isSet (s'.cpc u) = true ∧
+        s'.wasSet u = true ∧ u ∈ s'.notified ∧ s'.dropped = s.dropped)) :=
+  Condition.cancelledNotified_step (C11_invariant h) hs hc
+
+/-- No ghost waiter, no hidden waiter: the queue holds, without repetition, exactly the tasks
+suspended in `wait()` on an event that has not been set (future pending or cancelled). -/
+theorem C11_no_ghost_waiter {s : Condition.State} (h : Condition.Reach s) :
+    s.waiters.Nodup ∧ ∀ u, u ∈ s.waiters ↔ (s.cpc u = .evWait ∨ s.cpc u = .evFC) := by
+  have hi := C11_invariant h
+  refine ⟨hi.q.q_nodup, ?_⟩
+  intro u
+  rw [hi.q.queue_iff u]
+  cases hcu : s.cpc u <;> simp [Condition.isQueued]
+
+/-- The Condition's recorded owner is exactly the task that currently holds the lock (returned
+from `acquire`/`acquire_nowait`/`wait` and has not released or re-entered `wait` since). -/
+theorem C11_owner_is_holder {s : Condition.State} (h : Condition.Reach s) (t : Nat) :
+    s.ownerTask = some t ↔ s.lock.holds t = true :=
+  (C11_invariant h).a.owner_holds t
+
+/-- `wait`, `notify` and `notify_all` by a task that does not currently hold the lock are refused
+with `RuntimeError` and change nothing (for `wait`: when the caller's scope is not already
+cancelled -- then `checkpoint_if_cancelled` raises first, also without any effect). -/
+theorem C11_refusal {s : Condition.State} (h : Condition.Reach s) {t : Nat}
+    (hidle : s.cpc t = .none) (hh : s.lock.holds t = false) :
+    Condition.step s (.wait t false) = some (s, .runtimeError) ∧
+    (∀ n, Condition.step s (.notify t n) = some (s, .runtimeError)) ∧
+    Condition.step s (.notifyAll t) = some (s, .runtimeError) := by
+  have hno : s.ownerTask ≠ some t := by
+    intro ho; have := (C11_owner_is_holder h t).mp ho; rw [hh] at this; cases this
+  refine ⟨?_, ?_, ?_⟩
+  · simp [Condition.step, hidle, Condition.waitBody, hno]
+  · intro n; simp [Condition.step, hidle, hno]
+  · simp [Condition.step, hidle, hno]
+
+/-- Conversely the lock holder is never refused: its `wait()` enqueues it at the tail, gives up
+the lock and suspends; its `notify(n)` returns. -/
+theorem C11_holder_accepted {s : Condition.State} (h : Condition.Reach s) {t : Nat}
+    (hidle : s.cpc t = .none) (hh : s.lock.holds t = true) :
+    (∃ s', Condition.step s (.wait t false) = some (s', .susp) ∧ s'.cpc t = .evWait ∧
+        s'.waiters = s.waiters ++ [t] ∧ s'.lock.holds t = false ∧ s'.ownerTask = none) ∧
+    (∀ n, ∃ s', Condition.step s (.notify t n) = some (s', .ret)) := by
+  have hi := C11_invariant h
+  have hown : s.ownerTask = some t := (hi.a.owner_holds t).mpr hh
+  obtain ⟨hlo, hlpc⟩ := hi.a.lockInv.holds_owner t hh
+  have hr : Lock.step s.lock (.release t) =
+      some (Lock.doRelease { s.lock with holds := upd s.lock.holds t false }, .ret) := by
+    simp [Lock.step, hlpc, hlo]
+  obtain ⟨_, hcase⟩ := Lock.frame_release hi.a.lockInv hr
+  have hh' : (Lock.doRelease { s.lock with holds := upd s.lock.holds t false }).holds t = false := by
+    rcases hcase with ⟨_, _, h3, _⟩ | ⟨h1, _⟩
+    · exact h3
+    · cases h1
+  constructor
+  · refine ⟨{ s with waiters := s.waiters ++ [t], wasSet := upd s.wasSet t false,
+                     lock := Lock.doRelease { s.lock with holds := upd s.lock.holds t false },
+                     ownerTask := none, cpc := upd s.cpc t .evWait }, ?_, by simp, rfl, hh', rfl⟩
+    simp [Condition.step, hidle, Condition.waitBody, hown, hr]
+  · intro n
+    exact ⟨Condition.notifyLoop n s, by simp [Condition.step, hidle, hown]⟩
+
+/-- No lost wake-up at the level of a single waiter: a task whose event has been set can always be
+resumed, and that segment takes it off the pending list for good (it consumes the notification or
+hands it on, `C11_pass_on`). -/
+theorem C11_notified_resumes {s : Condition.State} (h : Condition.Reach s) {t : Nat}
+    (hset : Condition.isSet (s.cpc t) = true) :
+    ∃ s' o, Condition.step s (.step t) = some (s', o) ∧ t ∉ s'.notified ∧
+      Condition.isSet (s'.cpc t) = false := by
+  have hi := C11_invariant h
+  have hlpc : s.lock.pc t = .idle := by
+    have := hi.a.pc_link t
+    apply Classical.byContradiction
+    intro hne
+    have hl := this.mp hne
+    rcases hl with hl | ⟨e, hl⟩ <;> simp [hl, Condition.isSet] at hset
+  have hx0 : Condition.InvQx t { s with notified := s.notified.erase t } :=
+    Condition.invQx_eraseN hi.q hset rfl rfl rfl rfl
+  have hfin : ∀ (s1 : Condition.State) (exc : Bool), s1.lock = s.lock → t ∉ s1.notified →
+      ∃ s' o, Condition.reacquire t exc s1 = some (s', o) ∧ t ∉ s'.notified ∧
+        Condition.isSet (s'.cpc t) = false := by
+    intro s1 exc hl hn
+    have hen : ∃ x, Lock.step s1.lock (.acquire t false) = some x := by
+      rw [hl]; simp only [Lock.step, hlpc]
+      simp only [ne_eq, not_true_eq_false, if_false]
+      repeat' split
+      all_goals exact ⟨_, rfl⟩
+    obtain ⟨⟨l, lo⟩, hr⟩ := hen
+    have hsome : ∃ y, Condition.reacquire t exc s1 = some y := by
+      unfold Condition.reacquire; rw [hr]; unfold Condition.lockResult
+      split <;> first | exact ⟨_, rfl⟩ | simp_all
+    obtain ⟨⟨s', o⟩, hy⟩ := hsome
+    refine ⟨s', o, hy, ?_, ?_⟩
+    · unfold Condition.reacquire at hy
+      rw [(Condition.lockResult_wasSet hy).2.2.2]; exact hn
+    · unfold Condition.reacquire at hy
+      obtain ⟨_, _, _, _, _, hcase⟩ := Condition.lockResult_cases hy
+      rcases hcase with ⟨_, _, hc, _⟩ | ⟨_, _, hc, _⟩ | ⟨_, _, _, hc, _⟩ <;>
+        simp [hc, Condition.isSet]
+  cases hcp : s.cpc t <;> simp [hcp, Condition.isSet] at hset
+  · rename_i p
+    obtain ⟨s', o, h1, h2⟩ := hfin (Condition.passOn { s with notified := s.notified.erase t }) true
+      (Condition.view_passOn _).1 (Condition.invQx_passOn hx0).t_notn
+    exact ⟨s', o, by simp only [Condition.step, hcp]; exact h1, h2⟩
+  · rename_i p
+    obtain ⟨s', o, h1, h2⟩ := hfin
+      { s with notified := s.notified.erase t,
+               consumedDirect := if p then s.consumedDirect else s.consumedDirect + 1,
+               consumedPassed := if p then s.consumedPassed + 1 else s.consumedPassed } false rfl
+      hx0.t_notn
+    exact ⟨s', o, by simp only [Condition.step, hcp]; exact h1, h2⟩
+  · rename_i p
+    obtain ⟨s', o, h1, h2⟩ := hfin (Condition.passOn { s with notified := s.notified.erase t }) true
+      (Condition.view_passOn _).1 (Condition.invQx_passOn hx0).t_notn
+    exact ⟨s', o, by simp only [Condition.step, hcp]; exact h1, h2⟩
+
+/-! ### boundary of the claim: native cancellation during the shielded re-acquire
+
+Cancel-scope cancellation cannot reach a task inside `with CancelScope(shield=True): await
+self.acquire()`.  A native `Task.cancel()` can: `Lock.acquire` then raises out of the `finally:`
+block.  The history below (checked by evaluation) shows what the code then does: task 1 was
+notified, woke up normally (notification consumed), was queued on the lock still held by the
+notifier 3, and its Lock future is cancelled natively: `wait()` raises, task 1 does *not* hold the
+lock, and the other waiter 2 stays asleep -- the consumed notification is not passed on.
+AnyIO scopes its guarantees to cancel-scope cancellation, so C11 is claimed for that (DESIGN
+section 4, same decision as for C12); this witness keeps the boundary machine-checked. -/
+theorem C11_native_cancel_reacquire_witness :
+    (traceFrom Condition.step (Condition.init false)
+      [.acquire 1 false, .step 1, .wait 1 false, .acquire 2 false, .step 2, .wait 2 false,
+       .acquire 3 false, .step 3, .notify 3 1, .step 1, .fc 1, .step 1]).map
+      (fun r => (r.2.drop 8, r.1.lock.holds 1, r.1.lock.owner, r.1.waiters, r.1.cpc 1, r.1.cpc 2,
+        r.1.issued, r.1.consumedDirect, r.1.notified)) =
+    some ([.ret, .susp, .env, .cancelled], false, some 3, [2], .none, .evWait, 1, 1, []) := by
+  decide
+
+/-! ### non-vacuity: the hypotheses above are met by concrete histories -/
+
+/-- Event: two waiters, one cancelled while waiting, `set()`, both resume; a late waiter takes
+the non-blocking path -/
+example :
+    (traceFrom Event.step Event.init
+      [.wait 1 false, .wait 2 false, .fc 2, .set, .step 1, .step 2, .wait 3 false, .step 3]).map
+      (fun r => (r.2, r.1.flag, r.1.waiters)) =
+    some ([.susp, .susp, .env, .ret, .ret, .cancelled, .susp, .ret], true, []) := by decide
+
+/-- Event: native cancellation between `set()` and the wake-up: `wait()` raises although the flag
+is set -/
+example :
+    (traceFrom Event.step Event.init [.wait 1 false, .set, .mc 1, .step 1]).map
+      (fun r => (r.2, r.1.flag, r.1.waiters)) =
+    some ([.susp, .ret, .env, .cancelled], true, []) := by decide
+
+/-- three waiters 1,2,3; `notify(2)` by 4 selects 1 and 2 in waiting order, 3 stays queued -/
+example :
+    (runFrom Condition.step (Condition.init false)
+      [.acquire 1 false, .step 1, .wait 1 false, .acquire 2 false, .step 2, .wait 2 false,
+       .acquire 3 false, .step 3, .wait 3 false, .acquire 4 false, .step 4, .notify 4 2]).map
+      (fun s => (s.waiters, s.cpc 1, s.cpc 2, s.cpc 3, s.issued, s.ownerTask)) =
+    some ([3], .evSet false, .evSet false, .evWait, 2, some 4) := by decide
+
+/-- the notified waiter is cancelled in the same cycle, cancellation first: waiter 1's future is
+cancelled (`fc`), then `notify(1)` pops and sets its event; on wake-up 1 passes the notification
+on to 2, which later returns from `wait()` holding the lock, while 1 re-raises -/
+example :
+    (traceFrom Condition.step (Condition.init false)
+      [.acquire 1 false, .step 1, .wait 1 false, .acquire 2 false, .step 2, .wait 2 false,
+       .acquire 3 false, .step 3, .fc 1, .notify 3 1, .release 3, .step 1, .step 1, .release 1,
+       .step 2, .step 2]).map
+      (fun r => (r.2.drop 8, r.1.waiters, r.1.cpc 2, r.1.ownerTask, r.1.lock.holds 2,
+        r.1.consumedDirect, r.1.consumedPassed, r.1.dropped, r.1.issued)) =
+    some ([.env, .ret, .ret, .susp, .cancelled, .ret, .susp, .ret], [], .none, some 2, true,
+      0, 1, 0, 1) := by decide
+
+/-- same cycle, notification first: `notify(1)` sets waiter 1's event, a native cancellation hits
+1 before it runs (`mc`); 1 passes the notification on to 2 -/
+example :
+    (runFrom Condition.step (Condition.init false)
+      [.acquire 1 false, .step 1, .wait 1 false, .acquire 2 false, .step 2, .wait 2 false,
+       .acquire 3 false, .step 3, .notify 3 1, .mc 1, .step 1]).map
+      (fun s => (s.waiters, s.cpc 1, s.cpc 2, s.notified, s.dropped)) =
+    some ([], .reacq true, .evSet true, [2], 0) := by decide
+
+/-- a notified-and-cancelled waiter with nobody behind it: the notification is dropped -/
+example :
+    (runFrom Condition.step (Condition.init false)
+      [.acquire 1 false, .step 1, .wait 1 false, .acquire 3 false, .step 3, .notify 3 1, .mc 1,
+       .step 1]).map
+      (fun s => (s.waiters, s.cpc 1, s.notified, s.dropped, s.issued)) =
+    some ([], .reacq true, [], 1, 1) := by decide
+
+/-- misuse: a task that has released the lock calls `notify()` and `wait()`: refused, nothing
+queued (the F7 history) -/
+example :
+    (traceFrom Condition.step (Condition.init false)
+      [.acquire 1 false, .step 1, .release 1, .notify 1 1, .wait 1 false, .notifyAll 1]).map
+      (fun r => (r.2, r.1.waiters, r.1.ownerTask)) =
+    some ([.susp, .ret, .ret, .runtimeError, .runtimeError, .runtimeError], [], none) := by decide
+
+end AnyioModel.Props.C11
